@@ -304,9 +304,10 @@ class StringifyMapper(Mapper):
     def map_comparison(self, expr, enclosing_prec, *args, **kwargs):
         return self.parenthesize_if_needed(
                 self.format("%s %s %s",
-                    self.rec(expr.left, PREC_COMPARISON, *args, **kwargs),
+                    # comparisons do not associate (in Python they chain)
+                    self.rec(expr.left, PREC_COMPARISON+1, *args, **kwargs),
                     expr.operator,
-                    self.rec(expr.right, PREC_COMPARISON, *args, **kwargs)),
+                    self.rec(expr.right, PREC_COMPARISON+1, *args, **kwargs)),
                 enclosing_prec, PREC_COMPARISON)
 
     def map_logical_not(self, expr, enclosing_prec, *args, **kwargs):
